@@ -118,10 +118,10 @@ theorem updnoc_accept_iff (cfg : Cfg) (n : Node) (sid s node ser : Nat) (mode : 
           by_cases h2 : a.flags.updCsr <;> by_cases h3 : a.flags.root <;> by_cases h4 : a.flags.addNoc <;>
             by_cases h5 : a.flags.addCsr <;> by_cases h6 : a.flags.updNoc <;> simp_all [ok, Status.accepted]
     · simp_all [ok, Status.accepted]
-theorem addnoc_accept_iff (cfg : Cfg) (n : Node) (sid s ca fid node subj ser : Nat) (mode : Mode) :
-    (sessOp cfg n sid mode (.addnoc s ca fid node subj ser)).2.accepted = true ↔
+theorem addNoc_accept_iff (cfg : Cfg) (n : Node) (sid ca fid node subj ser : Nat) (mode : Mode) :
+    (addNoc cfg n sid mode ca fid node subj ser).2.accepted = true ↔
       specAddNoc cfg n mode ca fid subj = true := by
-  unfold sessOp specAddNoc inContext flagsOf deferredOf checkArmed checkState freeIdx
+  unfold addNoc specAddNoc inContext flagsOf deferredOf checkArmed checkState freeIdx
   cases hfs : n.fs with
   | none => simp [Status.accepted]
   | some a =>
@@ -135,6 +135,41 @@ theorem addnoc_accept_iff (cfg : Cfg) (n : Node) (sid s ca fid node subj ser : N
       all_goals simp_all [Status.accepted]
       all_goals grind
 
+/-- the retry of a failed resumption-cache store touches nothing the gating looks at -/
+theorem retryResum_same (n : Node) :
+    (retryResum n).1.fs = n.fs ∧ (retryResum n).1.staged = n.staged ∧ (retryResum n).1.fabrics = n.fabrics := by
+  have hk : (kvTick n).1.fs = n.fs ∧ (kvTick n).1.staged = n.staged ∧ (kvTick n).1.fabrics = n.fabrics := by
+    unfold kvTick; split <;> (try split) <;> exact ⟨rfl, rfl, rfl⟩
+  unfold retryResum
+  split
+  · unfold storeResum
+    rcases ht : kvTick n with ⟨n1, bad⟩
+    rw [ht] at hk
+    cases bad <;> exact hk
+  · exact ⟨rfl, rfl, rfl⟩
+
+theorem specAddNoc_congr (cfg : Cfg) (n n' : Node) (mode : Mode) (ca fid subj : Nat)
+    (h1 : n'.fs = n.fs) (h2 : n'.staged = n.staged) (h3 : n'.fabrics = n.fabrics) :
+    specAddNoc cfg n' mode ca fid subj = specAddNoc cfg n mode ca fid subj := by
+  unfold specAddNoc inContext flagsOf deferredOf freeIdx hasFabric
+  rw [h1, h2, h3]
+
+/-- AddNOC is accepted exactly when the spec table holds - and the retry of a resumption-cache store
+that had failed (the first thing the command does) does not fail again -/
+theorem addnoc_accept_iff (cfg : Cfg) (n : Node) (sid s ca fid node subj ser : Nat) (mode : Mode) :
+    (sessOp cfg n sid mode (.addnoc s ca fid node subj ser)).2.accepted = true ↔
+      ((retryResum n).2 = true ∧ specAddNoc cfg n mode ca fid subj = true) := by
+  have ⟨h1, h2, h3⟩ := retryResum_same n
+  simp only [sessOp]
+  rcases hr : retryResum n with ⟨n1, b⟩
+  rw [hr] at h1 h2 h3
+  simp only at h1 h2 h3
+  cases b with
+  | false => simp [Status.accepted]
+  | true =>
+    simp only [true_and]
+    rw [addNoc_accept_iff, specAddNoc_congr cfg n n1 mode ca fid subj h1 h2 h3]
+
 /-! ## gating corollaries -/
 
 /-- a credential command is accepted only from the session context the fail-safe is bound to -/
@@ -147,7 +182,7 @@ theorem only_failsafe_context (cfg : Cfg) (n : Node) (sid : Nat) (mode : Mode) (
     simp only [specCsr, Bool.and_eq_true] at this; exact this.1.1
   · have := (root_accept_iff cfg n sid s c mode).mp hacc
     simp only [specRoot, Bool.and_eq_true] at this; exact this.1
-  · have := (addnoc_accept_iff cfg n sid s c f nd a r mode).mp hacc
+  · have := ((addnoc_accept_iff cfg n sid s c f nd a r mode).mp hacc).2
     simp only [specAddNoc, Bool.and_eq_true] at this; exact this.1.1.1.1.1.1.1.1.1
   · have := (updnoc_accept_iff cfg n sid s nd r mode).mp hacc
     simp only [specUpdNoc, Bool.and_eq_true] at this; exact this.1.1.1.1
@@ -342,22 +377,41 @@ theorem failed_complete_stays_armed (cfg : Cfg) (n : Node) (sid s : Nat) (mode :
   (complete_ok_or_unchanged cfg n sid s mode).resolve_left hfail
 
 /-- the commands of the commissioning in progress never write to the store: CSRRequest,
-AddTrustedRootCertificate, AddNOC, UpdateNOC, network changes and (re-)arming leave every key alone
+AddTrustedRootCertificate, UpdateNOC, network changes and (re-)arming leave every key alone
 (what they change lives in memory until CommissioningComplete) -/
 theorem commissioning_ops_keep_store (cfg : Cfg) (n : Node) (sid : Nat) (mode : Mode) (op : Op)
     (hop : (∃ s u, op = .csr s u) ∨ (∃ s c, op = .root s c) ∨
-           (∃ s c f nd a r, op = .addnoc s c f nd a r) ∨ (∃ s nd r, op = .updnoc s nd r) ∨
+           (∃ s nd r, op = .updnoc s nd r) ∨
            (∃ s v, op = .net s v) ∨ (∃ s v, op = .rmnet s v) ∨ (∃ s t, op = .arm s t ∧ t ≠ 0)) :
     (sessOp cfg n sid mode op).1.kv = n.kv ∧ (sessOp cfg n sid mode op).1.hist = n.hist := by
   refine sessOp_store_untouched cfg n sid mode op ?_
-  rcases hop with h | h | h | h | h | h | h
+  rcases hop with h | h | h | h | h | h
   · exact Or.inl h
   · exact Or.inr (Or.inl h)
   · exact Or.inr (Or.inr (Or.inl h))
   · exact Or.inr (Or.inr (Or.inr (Or.inl h)))
   · exact Or.inr (Or.inr (Or.inr (Or.inr (Or.inl h))))
   · exact Or.inr (Or.inr (Or.inr (Or.inr (Or.inr (Or.inl h)))))
-  · exact Or.inr (Or.inr (Or.inr (Or.inr (Or.inr (Or.inr (Or.inl h))))))
+
+/-- ... and AddNOC writes no fabric key and no networks key: the only key it may write is the
+resumption cache (the retry of a store that had failed) -/
+theorem addnoc_keeps_committed_keys (cfg : Cfg) (n : Node) (sid s ca fid node subj ser : Nat) (mode : Mode) :
+    (sessOp cfg n sid mode (.addnoc s ca fid node subj ser)).1.kv.fabs = n.kv.fabs ∧
+    (sessOp cfg n sid mode (.addnoc s ca fid node subj ser)).1.kv.nets = n.kv.nets := by
+  simp only [sessOp]
+  rcases retryResum_cases n with hr | hr
+  · rw [hr]
+    have := (addNoc_store_untouched cfg n sid mode ca fid node subj ser).1
+    simp only [this]; exact ⟨triv, triv⟩
+  · rw [hr]
+    have ⟨_, hf, hn, _⟩ := storeResum_spec n
+    rcases hst : storeResum n with ⟨n1, b⟩
+    rw [hst] at hf hn
+    cases b with
+    | false => exact ⟨hf, hn⟩
+    | true =>
+      have := (addNoc_store_untouched cfg n1 sid mode ca fid node subj ser).1
+      simp only [this]; exact ⟨hf, hn⟩
 
 /-- an ACL write of the fabric the fail-safe is armed for is deferred: the store is not touched, and
 the fail-safe context remembers it -/
@@ -394,7 +448,7 @@ theorem addnoc_refused_while_deferred (cfg : Cfg) (n : Node) (sid s ca fid node 
   cases hacc : (sessOp cfg n sid mode (.addnoc s ca fid node subj ser)).2.accepted with
   | false => rfl
   | true =>
-    have := (addnoc_accept_iff cfg n sid s ca fid node subj ser mode).mp hacc
+    have := ((addnoc_accept_iff cfg n sid s ca fid node subj ser mode).mp hacc).2
     simp only [specAddNoc, Bool.and_eq_true, Bool.not_eq_true', Bool.and_eq_false_iff] at this
     rcases this.1.2 with h | h
     · simp [hfab] at h
